@@ -64,14 +64,51 @@ def shards(tier, seed):
     return engine.codemod_shards(tier, seed + 7, per_shard_quick=2, per_shard_thorough=30, batch=8)
 
 
+def line_excludes(rendered):
+    """For one file in three (a deterministic function of its bytes, so that a replay sees the same run) two of its
+    lines are excluded with --path-exclude path:line: an edit that is only half applied under a line filter (one
+    statement of a two-statement rewrite skipped) leaves a name unbound."""
+    items = []
+    for k, (case, rd) in enumerate(rendered):
+        h = int(core.sha(rd["data"]), 16)
+        if h % 3:
+            continue
+        rel = engine.rel_for(case["codemod"], k)
+        n = rd["data"].count(b"\n") + 1
+        for l in sorted({1 + (h >> 8) % n, 1 + (h >> 24) % n, 1 + (h >> 40) % n}):
+            items.append(f"{rel}:{l}")
+    return ["--path-exclude", ",".join(items)] if items else []
+
+
+def _handle(stats):
+    def handle(cid, kind, rendered):
+        argv = line_excludes(rendered)
+        obs = engine.run_batch([cid], rendered, extra_argv=argv)
+        if obs.res.exit != 0 or obs.res.report is None:
+            stats.discard(f"run-exit-{obs.res.exit}")
+            stats.labels["run-failed:" + cid] += 1
+            return
+        excluded = {a.rsplit(":", 1)[0] for a in (argv[1].split(",") if argv else [])}
+        for f in obs.files:
+            labels = ["kind:" + kind, "codemod:" + cid] + f.labels + (["lines-excluded"] if f.rel in excluded else [])
+            judge(f, cid, kind, labels, stats, obs)
+
+    return handle
+
+
 def run_shard(spec):
     stats = core.Stats()
-    _prog.run_programs(spec, judge, stats)
+    engine.drive_programs(spec, _handle(stats), stats)
     return stats
 
 
 def replay(case):
-    return _prog.replay_program(case, judge)
+    prog = case["program"]
+    rd = progspace.render(prog, "code.py")
+    cid = prog["codemod"]
+    st = core.Stats()
+    _handle(st)(cid, engine.kind_of(engine.codemod_by_id(cid)), [(prog, rd)])
+    return st.violations
 
 
 def minimise(case, kind=None):
